@@ -105,6 +105,8 @@ def run(pid, cfg, tier, seed, tally, ck):
     z = None
     leaps = []
     types = []
+    trans = []
+    no_rule = False
     stats = {"files": 0, "lookups_compared_glibc": 0, "lookups_compared_cpython": 0, "not_comparable": 0,
              "finds_compared": 0, "find_instants": 0, "mismatch_glibc": 0, "mismatch_cpython": 0, "mismatch_find": 0}
     samples = []
@@ -126,7 +128,8 @@ def run(pid, cfg, tier, seed, tally, ck):
                 stats["files"] += 1
                 continue
             if raw.startswith("zone "):
-                _, types, leaps = parse_zone(raw.split(" => ")[0])
+                trans, types, leaps = parse_zone(raw.split(" => ")[0])
+                no_rule = raw.split(" => ")[0].endswith(" R N")
                 # the generated Lean list of IANA rules must hold exactly the rule the implementation decoded
                 lhs = raw.split(" => ")[0]
                 if " R A " in lhs and cur_file:
@@ -172,7 +175,7 @@ def run(pid, cfg, tier, seed, tally, ck):
                                 rp = ck.write_replay(pid, "reference-mismatch", {"file": cur_file, "line": raw, "reference": "cpython-zoneinfo", "reference_answer": list(c)})
                                 viol.append(("cpython", rp, False))
                 continue
-            if raw.startswith("find ") and cur_file and not is_right:
+            if raw.startswith("find ") and cur_file:
                 lhs, ans = raw.split(" => ")
                 f = [int(x) for x in lhs.split(" ")[1:8]]
                 if not ans.startswith("["):
@@ -198,7 +201,13 @@ def run(pid, cfg, tier, seed, tally, ck):
                 ref = set()
                 for off in sorted({t[0] for t in types}):
                     u = base - off
-                    g = glibc_at(u)
+                    # right/ files: glibc's time_t is the leap count of the UTC instant
+                    k = to_count(leaps, u) if is_right else u
+                    if no_rule and trans and k >= trans[-1][0]:
+                        # no footer rule (every right/ file): tz-rs has no type after the last transition where
+                        # glibc extends the last one: not comparable
+                        continue
+                    g = glibc_at(k)
                     if g is not None and g[0] == off:
                         ref.add((u, off))
                 stats["finds_compared"] += 1
